@@ -35,6 +35,7 @@ VAL = T("Val")  # universal value
 FLT = T("Flt")  # float (uninterpreted)
 DT = T("DT")  # datetime.datetime (uninterpreted)
 BYTES = T("bytes")
+CLS = T("cls")  # a class object of the package (its id in the class table)
 PYOBJ = T("pyobj")  # python-level constant (function, class, module, ...)
 EXC = T("exc")
 
@@ -129,7 +130,7 @@ class Sorts:
             return "DT"
         if k == "bytes":
             return "Bytes"
-        if k == "ref":
+        if k in ("ref", "cls"):
             return "Int"
         if k == "opt":
             inner = self.sort(t.args[0])
